@@ -424,6 +424,7 @@ def summarise_for(it, s, fr, iterable):
             it.ctx.lemma("loop %s#%s: %s" % (fr.qualname, ordinal, name), formula)
     old_generic = getattr(it.ctx, "generic", None)
     it.ctx.generic = scope
+    scope.assumption_mark = len(it.ctx.assumptions)
     old_current = CURRENT[0]
     CURRENT[0] = scope
     scope.acc_names = set(accs)
@@ -482,6 +483,23 @@ def summarise_for(it, s, fr, iterable):
             del it.ctx.pc[pc_mark - 1:]
     except (BreakEx,):
         raise Unsupported("break in symbolic loop")
+    # facts assumed during the generic iteration (callee contracts, ghost-function axioms) hold for every iteration in range:
+    # keep them conditional on the range and re-instantiate them wherever an iteration K*(x) is substituted
+    kvs = [sp.k for sp in scope.vars()]
+    rng = z3.And(*[z(sp.inr(sp.k)) if not isinstance(sp.inr(sp.k), bool) else z3.BoolVal(sp.inr(sp.k)) for sp in scope.vars()])
+    scope.facts = []
+    tail = it.ctx.assumptions[scope.assumption_mark:]
+    del it.ctx.assumptions[scope.assumption_mark:]
+    for a in tail:
+        fv = npmodel.free_consts(a) if is_z3(a) else {}
+        if any(str(kk) in fv for kk in kvs):
+            cond = z3.Implies(rng, a)
+            scope.facts.append(cond)
+            it.ctx.assumptions.append(cond)
+        else:
+            it.ctx.assumptions.append(a)
+    if scope.parent is not None:
+        scope.parent.child_facts = getattr(scope.parent, "child_facts", []) + scope.facts
     assemble(it, s, fr, scope, accs, counters, temps, saved)
 
 
@@ -540,6 +558,9 @@ def generic_if(it, st, fr):
                 v = a
             elif a is not None and b is not None and is_scalar(a) and is_scalar(b):
                 v = ite(c1, a, b)
+            elif isinstance(a, Arr) and isinstance(b, Arr) and a.ndim == b.ndim and all(dim_eq(p, q) is True for p, q in zip(a.shape, b.shape)):
+                sa, sb = a.snapshot(), b.snapshot()
+                v = Arr(list(a.shape), (lambda sa, sb, c1: (lambda idx: ite(c1, sa(idx), sb(idx))))(sa, sb, c1), a.dtype)
             elif a is None or b is None:
                 v = Poison("%s is assigned on one branch only" % name)
             else:
@@ -687,6 +708,18 @@ def subst_value(v, kv, K):
     return sub(v)
 
 
+def eval_at(it, fn, sub):
+    """evaluate fn() (built for the generic iteration) and move it to another iteration: the value and every definedness
+    condition recorded while evaluating are substituted"""
+    mark = len(it.ctx.defs)
+    v = fn()
+    new = it.ctx.defs[mark:]
+    del it.ctx.defs[mark:]
+    for (f, msg, pc, ln, func) in new:
+        it.ctx.defs.append((sub(f), msg, [sub(q) for q in pc], ln, func))
+    return sub(v)
+
+
 def guarded(delta, g, sign, kv, K, it):
     sub = subst_fn(kv, K)
     d = sub(delta)
@@ -724,11 +757,28 @@ def apply_stores(it, scope, root, effs):
         def f(idx, e=e, old=old, X=X, Kstar=Kstar):
             Ks = [z3.substitute(zi(t), *[(x, zi(i)) for x, i in zip(X, idx)]) for t in Kstar]
             sub = subst_fn(kv, Ks)
+            for fact in getattr(scope, "facts", []) + getattr(scope, "child_facts", []):
+                inst = sub(fact)
+                key = inst.sexpr()
+                seen = getattr(it.ctx, "_fact_instances", None)
+                if seen is None:
+                    seen = it.ctx._fact_instances = set()
+                if key not in seen:
+                    seen.add(key)
+                    it.ctx.assumptions.append(inst)
             c = b_and(*[sp.inr(t) for sp, t in zip(spaces, Ks)])
             c = b_and(c, sub(e.guard), sub(e.cond(idx)))
             if c is False:
                 return old(idx)
-            v = sub(e.val(idx))
+            pushed = False
+            if not isinstance(c, bool):
+                it.ctx.pc.append(c)
+                pushed = True
+            try:
+                v = eval_at(it, lambda: e.val(idx), sub)
+            finally:
+                if pushed:
+                    it.ctx.pc.pop()
             from .arrays import cast_elem
             return ite(c, cast_elem(v, root.dtype), old(idx))
         new_f = f
@@ -759,7 +809,7 @@ def apply_accs(it, scope, root, effs):
                 c = b_and(sub(e.guard), sub(e.cond(idx)))
                 if c is False:
                     return 0
-                d = sub(e.val(idx))
+                d = eval_at(it, lambda: e.val(idx), sub)
                 return d if c is True else ite(c, d, 0)
             total = s_add(total, sum_over(it, scope, body, "acc"))
         return total
